@@ -20,6 +20,8 @@ def time(s=""):
 
 
 time()
+import copy
+
 import astroid
 
 from . import types
@@ -130,8 +132,11 @@ def compile_code(
 ):
     if isinstance(options, dict):
         options = CompileOptions(**options)
-    if options is None:
+    elif options is None:
         options = CompileOptions()
+    else:
+        # directives in the source must not leak into the caller's options object
+        options = copy.copy(options)
 
     main_module = src[""] if isinstance(src, dict) else src
     if "pytrapic:" in main_module:
